@@ -43,6 +43,9 @@ def extra_scenarios(tier, seed):
     for mech in ('SCRAM-SHA-256', 'SCRAM-SHA-1'):
         for s in scripts:
             out.append(dict(kind='adv', mech=mech, script=s, prior='client', sent=[], ok=(s == scripts[-1])))
+        # the caller's Auth object was used before in an exchange that failed at the server signature
+        for s in scripts:
+            out.append(dict(kind='adv', mech=mech, script=s, prior='authobj', sent=[], ok=(s == scripts[-1])))
     return out
 
 
